@@ -498,6 +498,7 @@ func (c *Ctx) plainCodecRules(r *Report, prefix string) {
 	c.bijectionRule(r, prefix+"dispatch.eap", c.Method("eap", "EAP", "Unmarshal"), "eap", "EapTypeData", "Type", 5)
 	c.akaEmitsAllRule(r, prefix+"aka.emits-every-attribute")
 	c.noSilentSkipRule(r, prefix+"decode.no-silent-skip", "eap", "message")
+	c.setterAtomicRule(r, prefix+"set.refused-leaves-untouched")
 	c.chainRules(r, prefix)
 	w.siblingRule(r, prefix+"siblings")
 	w.perFunctionRule(r, prefix+"siblings.shared-record")
